@@ -231,6 +231,10 @@ func calculateMaxCreation(params *datadoghqv1alpha1.ExtendedDaemonSetSpecStrateg
 	if err != nil {
 		return 0, err
 	}
+	if params.SlowStartIntervalDuration.Duration <= 0 {
+		// no usable slow start interval (the CRD schema accepts "0s"): there is no ramp to compute
+		return int(*params.MaxParallelPodCreation), nil
+	}
 	rollingUpdateDuration := now.Sub(rsStartTime)
 	nbSlowStartSlot := int(rollingUpdateDuration / params.SlowStartIntervalDuration.Duration)
 	result := (1 + nbSlowStartSlot) * startValue
